@@ -21,7 +21,7 @@ CLAIMED.update({
     "C02": ("exploration", "DESIGN.md 4/C02", W + "; stratified over explicit alg x key kind x route", "setkey admission table, pin (accepted/emitted alg == pinned alg), key family, for setkey and callback-selected pairs, on checkers and builders; header alg variants incl. case variants, unknown, missing, non-string; attacker-computable HMAC keys.", WN),
     "C03": ("exploration", "DESIGN.md 4/C03", W, "Unsigned-token rules on checkers (key by setkey or callback => never accept empty signature / alg none; no key => only alg 'none' with empty third segment) and builders (key by setkey or callback => never unsigned).", WN),
     "C05": ("exploration", "DESIGN.md 4/C05", W + "; signer randomness from the simulated entropy stream", "Issue -> pristine delivery -> verify across all (issuer provider, verifier provider) pairs and key types; must accept; header/claims read in the checker callback json_equal to builder input plus library members; short ECDSA r/s counted by probes.", WN),
-    "C06": ("exploration", "DESIGN.md 4/C06 (weak fit)", W + "; garbage and near-valid deliveries under ASan/UBSan with live-block accounting", "Every delivery incl. pure garbage up to 64 KiB must return, produce no sanitizer report, leak no simulator-allocator block, and be rejected when the lenient reference finds it malformed. No coverage guidance; a fuzzer would be the stronger tool.", WN),
+    "C06": ("exploration", "DESIGN.md 4/C06 (weak fit)", W + "; garbage and near-valid deliveries under ASan/UBSan with live-block accounting and allocator guard bytes; every fourth run a claim-policy history (leeways, clocks and exp/nbf at 64-bit extremes) judged for crashes, UB and leaks", "Every delivery incl. pure garbage up to 64 KiB must return, produce no sanitizer report, leak no simulator-allocator block, and be rejected when the lenient reference finds it malformed. No coverage guidance; a fuzzer would be the stronger tool.", WN),
     "C08": ("exploration", "DESIGN.md 4/C08 (weak fit)", W + "; monitor on every key-distribution event", "Every well-formed JWK published in any run (all types/sizes, private and public, optional members, zero-padded / minimal integers, foreign and unknown members) must import to exactly the ground-truth key and metadata.", WN),
     "C09": ("exploration", "DESIGN.md 4/C09 (weak fit)", W + "; oct lengths 0-160 and weak RSA/EC cells stratified by run index", "No generate or verify event of any run succeeds below the key-strength floor; keys at the floor round-trip.", WN),
     "C12": ("exploration", "DESIGN.md 4/C12", W + "; each comparable delivery re-judged under the other provider; deterministic algs generated under both", "Verdict agreement between OpenSSL and GnuTLS for pristine and not-validly-signed tokens (provenance-classified), byte-identical HS*/RS*/EdDSA tokens, keys loaded under one provider used under the other.", WN),
@@ -31,8 +31,8 @@ CLAIMED.update({
 H = "deterministic simulation: seeded operation histories on long-lived objects vs. executable reference models, with the simulated clock and allocator"
 CLAIMED.update({
     "C07": ("exploration", "DESIGN.md 4/C07", "deterministic simulation: JWKS documents damaged in flight, read through simulated streams (chunking, short reads, EOF/EIO at any byte) and torn scratch files; model on the bytes that reached the parser; ASan/UBSan + live-block accounting + LeakSanitizer batches", "Every entry point (jwks_load, _strn, jwks_create*, _fromfp, _fromfile) with valid keys of every kty whose members are structurally damaged, byte damage, non-JSON and non-object JSON; item count / order / error-or-usable dichotomy checked against the delivered bytes.", "Trusts jansson's json_loadb on the delivered bytes for 'is JSON'; usability is judged through the public accessors only."),
-    "C10": ("exploration", "DESIGN.md 4/C10", H + "; callbacks run at arbitrary simulated instants", "Histories of header/claim set/del, enable_iat, time_offset, setkey (incl. public-only and too-short keys), setcb programs that edit the per-token object or inject keys, clock moves and generates; every token decoded by the strict reference reader and compared with a builder model; builder snapshots before/after generate.", "Trusts the builder model written from the statement and OpenSSL for signature validity."),
-    "C13": ("exploration", "DESIGN.md 4/C13", H + "; fresh-twin oracle", "After every call on a long-lived checker or builder a freshly created identically configured twin gets the same call at the same simulated instant; verdicts (and deterministic tokens) must be equal, configuration must not drift; a quarter of the runs add single allocation faults.", "Twin oracle: a defect that affects fresh and reused objects alike is invisible here (other checks cover it)."),
+    "C10": ("exploration", "DESIGN.md 4/C10", H + "; callbacks run at arbitrary simulated instants; every third run a multi-party world run whose every generated token (all key types, sizes, algorithms, both providers) is read by the strict base64url reader", "Histories of header/claim set/del, enable_iat, time_offset, setkey (incl. public-only and too-short keys), setcb programs that edit the per-token object or inject keys, clock moves and generates; every token decoded by the strict reference reader and compared with a builder model; builder snapshots before/after generate.", "Trusts the builder model written from the statement and OpenSSL for signature validity."),
+    "C13": ("exploration", "DESIGN.md 4/C13", H + "; fresh-twin oracle (incl. a callback that picks keys from a ring, the twin loading its ring afresh); violations that need earlier runs of the same process are replayed with that history", "After every call on a long-lived checker or builder a freshly created identically configured twin gets the same call at the same simulated instant; verdicts (and deterministic tokens) must be equal, configuration must not drift; a quarter of the runs add single allocation faults.", "Twin oracle: a defect that affects fresh and reused objects alike is invisible here (other checks cover it)."),
     "C15": ("exploration", "DESIGN.md 4/C15", H, "Set/get/del histories of INT/STR/BOOL/JSON with and without replace on builder headers/claims and on the jwt_t inside generate and verify callbacks; return codes, values and the whole-object snapshot compared with a typed-map model after every step; single allocation faults in a quarter of the runs.", "Model stores values as jansson trees; don't-care cells listed in DESIGN."),
     "C16": ("exploration", "DESIGN.md 4/C16", H + "; loads through faulty streams and torn files; LeakSanitizer batches", "Histories over two keyrings of loads, get, find_bykid, count, free at every position incl. out of range and SIZE_MAX, free_bad, free_all, error clear, recreate; both rings compared with a list model after every step; ASan for use-after-free/double free, live-block and LSan accounting for leaks.", "Generated keys carry a marker member telling the model whether the element is definitely good or definitely bad."),
     "C17": ("fault_enumeration", "DESIGN.md 4/C17", "deterministic simulation with fault injection: for each sampled scenario every allocator request index fails once (exhaustive sweep per scenario), compared op by op with the fault-free run", "Exhaustive over the allocation index per scenario (thorough adds 'every request from k on'); scenarios (loads of every key type through every entry point, keyring removals, builder/checker configuration, typed values, callbacks, generate, verify; both providers) are sampled. Same result or reported failure; never an abort, a wrong accept or an altered token.", "Two jansson 2.14 dependency defects (lexer and dumper drop bytes when a buffer growth fails) are listed as known findings and recognised only when jansson alone reproduces them; leaks under OOM are counted, not flagged."),
